@@ -36,12 +36,12 @@ def sizes():
         if not ok:
             raise RuntimeError("seq_storage.cpp does not build: " + msg[-2000:])
         out = subprocess.run([binary, "--sizes"], stdout=subprocess.PIPE, timeout=60).stdout.decode().split("\n")
-        x, tbl = 0, {}
+        xs, tbl = [], {}
         for l in out:
             a = l.split()
-            if len(a) == 2 and a[0] == "x": x = int(a[1])
+            if len(a) == 3 and a[0] == "x": xs.append((int(a[1]), int(a[2])))
             elif len(a) == 2: tbl[int(a[0])] = int(a[1])
-        _sizes = (x, tbl)
+        _sizes = (xs, tbl)
     return _sizes
 
 
@@ -59,7 +59,8 @@ def close_case(c):
 def init_for(rng, eng, x, tbl):
     szs = sorted(tbl.values())
     if eng in ("st_def", "st_reu", "st_mts"):
-        return [0, rng.choice([0, x]), 0, 0]
+        xx, al = rng.choice([(0, 8), (0, 8)] + list(x))
+        return [0, xx, 0, 0, al] if xx else [0, 0, 0, 0]
     if eng == "st_stk":
         s = rng.choice(szs)
         return [0, 0, rng.choice([0, 0, s, s + 1, s + 2, szs[-1] + 1, 50]), 0]
@@ -114,15 +115,15 @@ def boundary(x, tbl):
     def add(eng, ops):
         out.append(close_case(Case(eng, "b%d" % b[0], ops))); b[0] += 1
     def cr(s, k): return [1, s, order[k], tbl[order[k]]]
-    for xx in (0, x):
+    for xx, xal in [(0, 8)] + list(x):
         # reusable: equal size after warm-up, smaller, larger, one class larger
         for k in ks:
             k2 = min(ks[-1], k + 1); k0 = max(0, k - 1)
-            add("st_reu", [[0, xx, 0, 0], cr(0, k), [2, 0], cr(0, k), [2, 0], cr(1, k0), [2, 1], cr(0, k2), [2, 0], cr(0, k), [2, 0]])
+            add("st_reu", [[0, xx, 0, 0, xal], cr(0, k), [2, 0], cr(0, k), [2, 0], cr(1, k0), [2, 1], cr(0, k2), [2, 0], cr(0, k), [2, 0]])
             # thread-safe variant used sequentially: second/third frame while the block is taken, then reuse, then growth
-            add("st_mts", [[0, xx, 0, 0], cr(0, k), cr(1, k), cr(2, k0), [2, 0], cr(3, k), [2, 1], [2, 3], cr(0, k2), cr(4, k2), [2, 2], [2, 0], cr(5, k), [2, 4], [2, 5]])
-            add("st_mts", [[0, xx, 0, 0], cr(0, k), [2, 0], cr(0, k), cr(1, k2), [2, 1], [2, 0], cr(1, k2), [2, 1], cr(2, k)])
-            add("st_def", [[0, xx, 0, 0], cr(0, k), cr(1, k), [2, 0], cr(0, k2), [2, 1], [2, 0]])
+            add("st_mts", [[0, xx, 0, 0, xal], cr(0, k), cr(1, k), cr(2, k0), [2, 0], cr(3, k), [2, 1], [2, 3], cr(0, k2), cr(4, k2), [2, 2], [2, 0], cr(5, k), [2, 4], [2, 5]])
+            add("st_mts", [[0, xx, 0, 0, xal], cr(0, k), [2, 0], cr(0, k), cr(1, k2), [2, 1], [2, 0], cr(1, k2), [2, 1], cr(2, k)])
+            add("st_def", [[0, xx, 0, 0, xal], cr(0, k), cr(1, k), [2, 0], cr(0, k2), [2, 1], [2, 0]])
     for k in ks:
         s = tbl[order[k]]
         k2 = min(ks[-1], k + 1); k0 = max(0, k - 1)
@@ -234,6 +235,10 @@ def signature(case, impl_obs, model_obs):
     last = impl_obs[-1] if impl_obs else ""
     if last.startswith("CRASH"):
         kind = last.split()[1] if len(last.split()) > 1 else "crash"
+        # promise_extra_storage places T at ptr+sz without regard to alignof(T) (fixes/C19-extra-align.patch): one input class
+        init = [o for o in case.ops if len(o) == 5 and o[0] == 0]
+        if "misaligned" in kind and init and init[0][1] > 0 and (init[0][4] > 8 or init[0][1] % 8):
+            return "extra-object-misaligned"
     elif last == "HANG":
         kind = "HANG"
     else:
